@@ -32,6 +32,15 @@ def mutants(props):
             continue
         out.append((pid, "seeded-" + os.path.basename(os.path.dirname(meta)),
                     os.path.join(os.path.dirname(meta), "patch.diff")))
+    # negative controls: behaviour-preserving refactors, every listed check must stay quiet (exit 0)
+    for meta in sorted(glob.glob(os.path.join(HERE, "refactors", "*", "meta.json"))):
+        with open(meta) as f:
+            m = json.load(f)
+        for pid in m["checks_run_against_it"]:
+            if props and pid not in props:
+                continue
+            out.append((pid, "refactor-" + os.path.basename(os.path.dirname(meta)),
+                        os.path.join(os.path.dirname(meta), "patch.diff")))
     return out
 
 
@@ -61,7 +70,11 @@ def run_one(pid, name, patch):
                 rj["note"] = f"fails when the fix is reverted ({name})"
                 with open(os.path.join(HERE, "regress", pid, f"{name}-{i}.json"), "w") as f:
                     json.dump(rj, f, indent=1)
-        return dict(property=pid, mutant=name, status={1: "killed", 0: "SURVIVED", 2: "harness-error"}.get(r.returncode, str(r.returncode)),
+        if name.startswith("refactor-"):
+            status = {0: "quiet", 1: "FALSE-ALARM", 2: "harness-error"}.get(r.returncode, str(r.returncode))
+        else:
+            status = {1: "killed", 0: "SURVIVED", 2: "harness-error"}.get(r.returncode, str(r.returncode))
+        return dict(property=pid, mutant=name, status=status,
                     buckets=buckets[:6], wall_s=round(time.time() - t0), stderr=r.stderr[-1500:] if r.returncode == 2 else "")
     finally:
         shutil.rmtree(td, ignore_errors=True)
@@ -75,7 +88,7 @@ def main(props, jobs):
     surv = 0
     for r in res:
         print(f"{r['property']} {r['mutant']:45s} {r['status']:14s} {r.get('wall_s', '')}s {r.get('buckets', '')}")
-        if r["status"] != "killed":
+        if r["status"] not in ("killed", "quiet"):
             surv += 1
             if r.get("stderr"):
                 print("   ", r["stderr"][-800:])
@@ -92,5 +105,5 @@ def main(props, jobs):
         old[(r["property"], r["mutant"])] = r
     with open(path, "w") as f:
         json.dump(sorted(old.values(), key=lambda r: (r["property"], r["mutant"])), f, indent=1)
-    print(f"{len(res) - surv}/{len(res)} killed")
+    print(f"{len(res) - surv}/{len(res)} as expected (mutants killed / refactors quiet)")
     return 1 if surv else 0
